@@ -67,6 +67,10 @@ def advance_through(clock, d, max_ticks=400):
 def cases(draw):
   nrules = draw(st.integers(1, 4))
   rules = [draw(aggpat.rules(idx=i)) for i in range(nrules)]
+  if draw(st.integers(0, 3)) == 0:
+    # several aggregates of the same inputs (same input pattern and frequency, another output and method)
+    r = draw(st.sampled_from(rules))
+    rules.append(dict(r, output='also%d.%s' % (len(rules), r['output']), method=draw(st.sampled_from(['sum', 'count', 'max', 'min']))))
   namegen = aggpat.names_for(rules)
   maxint = draw(st.sampled_from([1, 2, 5]))
   steps = []
